@@ -765,8 +765,21 @@ class Interp:
             self._display_length(st, target.id, value)
             if isinstance(value, (ast.Call, ast.Await)):
                 # `ok = self._helper()` where the helper, run in place, returned a constant
-                self._constant_flag(st, target.id, self._helper_returned(value, st))
-                self._returned_facts(st, target.id, self._helper_returned(value, st))
+                returned = self._helper_returned(value, st)
+                self._constant_flag(st, target.id, returned)
+                self._returned_facts(st, target.id, returned)
+                if isinstance(returned, ast.Call) and st.events:
+                    # ... or a record: what is known about each of its fields
+                    from . import rules
+                    made_by = st.events[-1].data.get('callee') \
+                        if st.events[-1].kind == 'leave' else None
+                    display = rules._record_display(returned, made_by.fn) \
+                        if made_by is not None else None
+                    if display is not None:
+                        for field, item in zip(display.record_fields, display.elts):
+                            dotted = '%s.%s' % (target.id, field)
+                            self._constant_flag(st, dotted, item)
+                            self._returned_facts(st, dotted, item)
 
     def _taken_branch(self, value, st: St, fr: DynFrame):
         """the operand a (nested) conditional expression evaluated to on this path, by the
@@ -1021,6 +1034,8 @@ class Interp:
         dead = []
         for key in st.facts:
             if _fact_has_attr(key):
+                if self._about_record_fields(key, fr):
+                    continue  # fields of an immutable record held by a stable local
                 if unknown or attrs is None or _fact_attr_names(key) & attrs or \
                         '(' in ''.join(key[1:]):
                     dead.append(key)
@@ -1030,6 +1045,29 @@ class Interp:
                 dead.append(key)
         for key in dead:
             del st.facts[key]
+
+    def _about_record_fields(self, key, fr) -> bool:
+        """every attribute path in the fact is ``<local>.<field>`` of a local that is bound
+        once and whose static type is a typing.NamedTuple record of the package"""
+        if fr is None or key[0] in ('constflag',) and False:
+            return False
+        deps = [d for d in _fact_deps(key) if '.' in d]
+        if not deps or any('(' in part or '[' in part for part in key[1:]):
+            return False
+        from . import rules
+        stable = self._stable_locals(fr)
+        for dep in deps:
+            parts = dep.split('.')
+            if len(parts) != 2 or parts[0] not in stable:
+                return False
+            found = self.te.expr_type(ast.Name(id=parts[0], ctx=ast.Load()), fr.frame)
+            classes = {t[1] for t in found if t[0] == 'inst'}
+            if len(classes) != 1 or any(t[0] not in ('inst', 'none') for t in found):
+                return False
+            fields = rules.record_fields(self.p, next(iter(classes)))
+            if not fields or parts[1] not in [n for n, _d in fields]:
+                return False
+        return True
 
     def _kill_suspend(self, st: St, fr: DynFrame):
         """other activities may run: only identity facts on stable locals survive"""
